@@ -163,6 +163,8 @@ class CParser:
         self._push_scope()
 
     def _lex_on_rbrace_func(self) -> None:
+        if len(self._scope_stack) <= 1:
+            self._parse_error("Unmatched '}'", self.clex.filename)
         self._pop_scope()
 
     def _lex_type_lookup_func(self, name: str) -> bool:
